@@ -32,7 +32,7 @@ theorem linearTerms_ok (n : Nat) (c : CState) (hd : c.done = false) (rest : List
   unfold readLinearTerms
   have := sat_forN (strict := strict) (h := cx.h)
     (body := fun _ => do
-      let v ← readUIntUB cx cx.h.num_vars
+      let v ← readUIntUB cx (Site.ubTermVar cx.h)
       let coef ← rdDouble cx
       eol cx
       if false then pure () else emit (.addTerm v coef))
@@ -40,7 +40,8 @@ theorem linearTerms_ok (n : Nat) (c : CState) (hd : c.done = false) (rest : List
   simp only [counted] at this hc ⊢
   refine sat_mono (this ?_ hc) (fun _ s' h' => by simpa using h')
   intro k j s1 _ _ _ h1
-  refine sat_rd_bind (reads_readUIntUB cx _) h1 (fun v s2 hc2 hv => ?_)
+  refine sat_rd_bind (reads_readUIntUB cx _) h1 (fun v s2 hc2 hv0 => ?_)
+  have hv : v < cx.h.num_vars := Nat.lt_of_lt_of_le hv0 (Site.ubTermVar_le cx.h)
   refine sat_rd_bind (reads_rdDouble cx) hc2 (fun coef s3 hc3 _ => ?_)
   refine sat_rd_bind (reads_eol cx) hc3 (fun _ s4 hc4 _ => ?_)
   simp only [Bool.false_eq_true, ↓reduceIte]
@@ -73,7 +74,11 @@ theorem readLinearExpr_ok (isObj : Bool) {s : PState} {c : CState}
     Sat strict cx.h (readLinearExpr cx isObj) s (TopPost strict cx) := by
   unfold readLinearExpr
   refine sat_rd_bind (reads_readUIntUB cx _) hc (fun idx s1 hc1 hidx => ?_)
-  refine sat_rd_bind (reads_readUIntLU cx _ _) hc1 (fun n s2 hc2 hn => ?_)
+  refine sat_rd_bind (reads_readUIntLU cx _ _) hc1 (fun n s2 hc2 hn0 => ?_)
+  have hn : 1 ≤ n ∧ n < cx.h.num_vars + 1 := by
+    have a := Site.lbTerms_eq
+    have b := Site.ubTerms_le cx.h
+    omega
   refine sat_rd_bind (reads_eol cx) hc2 (fun _ s3 hc3 _ => ?_)
   split
   · exact sat_mono (linearTermsSilent_ok n c s3 hc3) (fun _ s' h' => ⟨c, h', ht⟩)
@@ -272,7 +277,8 @@ theorem readSegment_ok (hso : strict = true → cx.objsel = none) (ch : UInt8) {
   unfold readSegment
   refine sat_ite (fun _ => ?_) (fun _ => ?_)
   · -- C
-    refine sat_rd_bind (reads_readUIntUB cx _) hc (fun idx s1 hc1 hidx => ?_)
+    refine sat_rd_bind (reads_readUIntUB cx _) hc (fun idx s1 hc1 hidx0 => ?_)
+    have hidx : idx < cx.h.num_algebraic_cons := Nat.lt_of_lt_of_le hidx0 (Site.ubC_le cx.h)
     refine sat_rd_bind (reads_eol cx) hc1 (fun _ s2 hc2 _ => ?_)
     apply sat_bind
     apply sat_mono (readExpr_ok _ (.num true) s2 c hc2 hd)
@@ -285,7 +291,8 @@ theorem readSegment_ok (hso : strict = true → cx.objsel = none) (ch : UInt8) {
         top_reset ht.1 hd⟩
   refine sat_ite (fun _ => ?_) (fun _ => ?_)
   · -- L
-    refine sat_rd_bind (reads_readUIntUB cx _) hc (fun idx s1 hc1 hidx => ?_)
+    refine sat_rd_bind (reads_readUIntUB cx _) hc (fun idx s1 hc1 hidx0 => ?_)
+    have hidx : idx < cx.h.num_logical_cons := Nat.lt_of_lt_of_le hidx0 (Site.ubL_le cx.h)
     refine sat_rd_bind (reads_eol cx) hc1 (fun _ s2 hc2 _ => ?_)
     apply sat_bind
     apply sat_mono (readExpr_ok _ .log s2 c hc2 hd)
@@ -297,7 +304,8 @@ theorem readSegment_ok (hso : strict = true → cx.objsel = none) (ch : UInt8) {
     simp [step, stepCore, htp, hidx, hd, this, CState.push1]
   refine sat_ite (fun _ => ?_) (fun _ => ?_)
   · -- O
-    refine sat_rd_bind (reads_readUIntUB cx _) hc (fun idx s1 hc1 hidx => ?_)
+    refine sat_rd_bind (reads_readUIntUB cx _) hc (fun idx s1 hc1 hidx0 => ?_)
+    have hidx : idx < cx.h.num_objs := Nat.lt_of_lt_of_le hidx0 (Site.ubO_le cx.h)
     refine sat_rd_bind (reads_rdUInt cx) hc1 (fun ty s2 hc2 _ => ?_)
     refine sat_rd_bind (reads_eol cx) hc2 (fun _ s3 hc3 _ => ?_)
     apply sat_bind
@@ -327,8 +335,7 @@ theorem readSegment_ok (hso : strict = true → cx.objsel = none) (ch : UInt8) {
     refine sat_rd_bind (reads_rdUInt cx) hc1 (fun nlt s2 hc2 _ => ?_)
     refine sat_rd_bind (reads_rdUInt cx) hc2 (fun pos s3 hc3 _ => ?_)
     refine sat_rd_bind (reads_eol cx) hc3 (fun _ s4 hc4 _ => ?_)
-    have hi : idx - cx.h.num_vars < cx.h.num_common_exprs := by
-      simp only [Header.num_vars_and_exprs] at hidx; omega
+    have hi : idx - cx.h.num_vars < cx.h.num_common_exprs := Site.V_index cx.h idx hidx.1 hidx.2
     refine sat_em_bind (c' := { c with vals := 0, stack := counted .terms nlt [.ce (idx - cx.h.num_vars)] }) hc4
       (by simp [step, stepCore, hd, hto 0, hi]) (fun s5 hc5 => ?_)
     have after : ∀ s6, chkRev strict cx.h s6.evs = some { c with vals := 0, stack := [.ce (idx - cx.h.num_vars)] } →
@@ -352,7 +359,8 @@ theorem readSegment_ok (hso : strict = true → cx.objsel = none) (ch : UInt8) {
       exact after s5 (by simpa [hz', counted] using hc5)
   refine sat_ite (fun _ => ?_) (fun _ => ?_)
   · -- F
-    refine sat_rd_bind (reads_readUIntUB cx _) hc (fun idx s1 hc1 hidx => ?_)
+    refine sat_rd_bind (reads_readUIntUB cx _) hc (fun idx s1 hc1 hidx0 => ?_)
+    have hidx : idx < cx.h.num_funcs := Nat.lt_of_lt_of_le hidx0 (Site.ubF_le cx.h)
     refine sat_rd_bind (reads_rdUInt cx) hc1 (fun ty s2 hc2 _ => ?_)
     split
     · exact sat_fail (good_of_some hc2)
